@@ -9,7 +9,8 @@ from builtins import int as int_types
 
 from future.utils import viewitems, viewvalues
 
-from miasm.expression.expression import ExprId, ExprInt, get_expr_locs
+from miasm.expression.expression import ExprId, ExprInt, ExprLoc, \
+    get_expr_locs, get_expr_ids
 from miasm.expression.expression import LocKey
 from miasm.expression.simplifications import expr_simp
 from miasm.core.utils import Disasm_Exception, pck
@@ -1027,6 +1028,12 @@ def get_block_loc_keys(block):
             if isinstance(instr.raw, list):
                 for expr in instr.raw:
                     symbols.update(get_expr_locs(expr))
+                    # A label used by a data directive is an ExprId named
+                    # after it (see fix_expr_val)
+                    for expr_id in get_expr_ids(expr):
+                        loc_key = block.loc_db.get_name_location(expr_id.name)
+                        if loc_key is not None:
+                            symbols.add(ExprLoc(loc_key, expr_id.size))
         else:
             for arg in instr.args:
                 symbols.update(get_expr_locs(arg))
